@@ -30,6 +30,10 @@ KEY_CONFIGS = [
     ('edcert-edca', ['ssh-ed25519-cert-v01@openssh.com'], {'ca': 'ed25519'}),
     ('edcert-rsaca', ['ssh-ed25519-cert-v01@openssh.com', 'ssh-ed25519'], {'ca': 'rsa', 'ca_bits': 2048}),
     ('edcert-ecca', ['ssh-ed25519-cert-v01@openssh.com'], {'ca': 256}),
+    # several certificates, each signed by a CA of another kind (they are measured one after the other)
+    ('twocerts-rsaca-edca', ['rsa-sha2-512-cert-v01@openssh.com', 'ssh-ed25519-cert-v01@openssh.com'], {'rsa_bits': 3072, 'ca': 'rsa', 'ca_bits': 4096, 'ca_by_alg': {'ssh-ed25519-cert-v01@openssh.com': ('ed25519', 256)}}),
+    ('twocerts-ecca-edca', ['ssh-rsa-cert-v01@openssh.com', 'ssh-ed25519-cert-v01@openssh.com', 'ssh-ed25519'], {'rsa_bits': 2048, 'ca': 384, 'ca_by_alg': {'ssh-ed25519-cert-v01@openssh.com': ('ed25519', 256)}}),
+    ('twocerts-edca-rsaca', ['rsa-sha2-256-cert-v01@openssh.com', 'ssh-ed25519-cert-v01@openssh.com'], {'rsa_bits': 4096, 'ca': 'ed25519', 'ca_by_alg': {'ssh-ed25519-cert-v01@openssh.com': ('rsa', 2048)}}),
 ]
 GEX_SIZES = [1024, 2048, 3072, 4096]
 INSERT = {'kex': 'diffie-hellman-group14-sha256', 'key': 'ssh-dss', 'enc': 'aes192-ctr', 'mac': 'hmac-md5'}
@@ -128,6 +132,53 @@ def audit(spec, role, extra):
     return H.client_audit(make_client(spec), opts=['-n'] + extra)
 
 
+def true_sizes(spec):
+    """what the scripted peer really presents: {host key type: (size, CA type, CA size)} for the types the tool measures, {gex alg: modulus}"""
+    hk = spec['hk']
+    probing = any(k in runner.M['hostkeytest'].HostKeyTest.KEX_TO_DHGROUP if hasattr(runner.M['hostkeytest'].HostKeyTest, 'KEX_TO_DHGROUP') else False for k in spec['kex']) or \
+        any(k in ('curve25519-sha256', 'curve25519-sha256@libssh.org', 'sntrup761x25519-sha512@openssh.com') or 'group-exchange' in k for k in spec['kex'])
+    keys = {}
+    for a in spec['key']:
+        ca, ca_bits = (hk.get('ca_by_alg') or {}).get(a, (hk.get('ca', 'ed25519'), hk.get('ca_bits', 3072)))
+        cat, cas = ('ssh-ed25519', 256) if ca == 'ed25519' else ('ssh-rsa', ca_bits) if ca == 'rsa' else ('ecdsa-sha2-nistp%d' % ca, ca)
+        if a in P.RSA_FAMILY:
+            keys[a] = (hk.get('rsa_bits', 3072), None, None)
+        elif a == 'ssh-ed25519':
+            keys[a] = (256, None, None)
+        elif a in ('ssh-rsa-cert-v01@openssh.com', 'rsa-sha2-256-cert-v01@openssh.com', 'rsa-sha2-512-cert-v01@openssh.com'):
+            keys[a] = (hk.get('rsa_bits', 3072), cat, cas)
+        elif a == 'ssh-ed25519-cert-v01@openssh.com':
+            keys[a] = (256, cat, cas)
+    g = spec.get('gex')
+    dh = {}
+    for k in spec['kex']:
+        if k in (GEX1, GEX256) and g:
+            dh[k] = g[k] if isinstance(g, dict) else g
+    return keys, dh
+
+
+def recorded_sizes_problems(spec, text):
+    import re
+    probs = []
+    keys, dh = true_sizes(spec)
+    m = re.search(r'^host_key_sizes = (.*)$', text, re.M)
+    rec = json.loads(m.group(1)) if m else {}
+    for a, (size, cat, cas) in keys.items():
+        r = rec.get(a)
+        if r is None:
+            continue        # whether a type is measured at all is C11's business; what is recorded must be true
+        if r.get('hostkey_size') != size:
+            probs.append(('host-key-size', {a: r}, size))
+        if cat is not None and (r.get('ca_key_type') != cat or r.get('ca_key_size') != cas):
+            probs.append(('ca-details', {a: r}, [cat, cas]))
+    m = re.search(r'^dh_modulus_sizes = (.*)$', text, re.M)
+    rec = json.loads(m.group(1)) if m else {}
+    for k, v in dh.items():
+        if k in rec and rec[k] != v:
+            probs.append(('modulus-size', {k: rec[k]}, v))
+    return probs
+
+
 def name_class(spec):
     names = spec['kex'] + spec['enc'] + spec['mac'] + spec['key']
     tags = []
@@ -146,6 +197,9 @@ def check_peer(task, st):
     if not os.path.exists(path) or r0.status != 0:
         st.violation('make-policy-failed:%s' % role, {'spec': spec, 'role': role, 'status': r0.status, 'stdout': r0.stdout[-300:]})
         return
+    if role == 'server':
+        for what, got, want in recorded_sizes_problems(spec, open(path).read()):
+            st.violation('made-policy-records-wrong-%s' % what, {'spec': spec, 'recorded': got, 'true': want})
     r1 = audit(spec, role, ['-P', path, '-j'])
     st.execution(r1.world, outcome=('same', r1.status), root=('same', json.dumps(spec, sort_keys=True), role), nontrivial=('same', json.dumps(spec, sort_keys=True), role))
     ok = False
